@@ -1,9 +1,36 @@
 (* C14 Crash between any two storage writes
-   Full-strength statement: C14 (see DESIGN.md section 7) (Cluster/Statements.v). Proved so far: the theorems below; what is
-   not yet proved is decided on every run by the lock-step co-simulation (model = implementation on every
-   explored schedule) together with the monitors run on the implementation's own observations. *)
-From RaftV Require Import Cluster.Statements Proofs.RVSpec Proofs.AESpec Proofs.ReadSpec.
+   Full-strength statement: C14 (see DESIGN.md section 7). Proved: "the cluster keeps all safety properties" for
+   executions without membership changes and snapshots - the cluster theorems of C01, C02, C07, C08 quantify over
+   every schedule, and a schedule may arm a crash point at any storage write of any node (LBudget n k: node n
+   freezes at its (k+1)-th write from now, leaving a torn batch), kill it (LCrash) and restart it over the same
+   directory (LRestart): C14_crash_points_are_in_scope, C14_*_across_crashes below; plus the node-level theorems.
+   "NewRaft succeeds / no fatal error" and the snapshot-related crash points are decided on every run by the
+   lock-step co-simulation (crash family: crash point in every write incl. takeSnapshot) and the monitors. *)
+From RaftV Require Import Cluster.World Cluster.Statements Proofs.RVSpec Proofs.AESpec Proofs.ReadSpec.
+From RaftV Require Import Proofs.ConfStatic Proofs.LogDefs Proofs.ElectSafety Proofs.LCFinal Proofs.LCStatement.
 Open Scope N_scope.
+
+(* the executions the cluster theorems quantify over contain crash points at every storage write, kills and restarts *)
+Theorem C14_crash_points_are_in_scope : forall n k ls, static ls = true -> nosnap ls = true ->
+  static (LBudget n k :: LCrash n :: LRestart n :: ls) = true /\ nosnap (LBudget n k :: LCrash n :: LRestart n :: ls) = true.
+Proof. intros n k ls Hs Hn. split; cbn; assumption. Qed.
+Print Assumptions C14_crash_points_are_in_scope.
+
+Theorem C14_election_safety_across_crashes : C02_statement.
+Proof. exact election_safety. Qed.
+Print Assumptions C14_election_safety_across_crashes.
+
+Theorem C14_leader_completeness_across_crashes : C07_statement.
+Proof. exact leader_completeness. Qed.
+Print Assumptions C14_leader_completeness_across_crashes.
+
+Theorem C14_state_machine_safety_across_crashes : forall ids boot et ld ls1 ls2,
+  static (ls1 ++ ls2) = true -> nosnap (ls1 ++ ls2) = true ->
+  let w1 := run (init_world ids boot et ld) ls1 in
+  let w2 := run w1 ls2 in
+  forall i t p t' p', applied_in w1 i t p -> applied_in w2 i t' p' -> t = t' /\ p = p'.
+Proof. exact state_machine_safety_nosnap. Qed.
+Print Assumptions C14_state_machine_safety_across_crashes.
 
 (* becomeFollower (every term change, every step-down) never touches the commit index, the applied index, the
    snapshot boundary, the stored snapshots, the state machine or its apply history *)
